@@ -135,25 +135,29 @@ func setTier() {
 	}
 	// iso: one persisted and one never-persisted account that differ in the last nibble
 	addScenario(&scenario{name: "iso", reads: []string{"g0"}, menu: []string{"-", "g0", "g1", "g0+g1"},
-		depth: pick(4, 5), maxBlocks: 5, maxReads: pick(2, 3)})
+		depth: pick(4, 5), maxBlocks: 5, maxReads: 2})
 	// pre: every prefix length; persisted and fresh accounts
 	addScenario(&scenario{name: "pre", reads: []string{"g0", "m", "z"}, menu: []string{"g0", "m", "s", "z+g1"},
-		depth: pick(3, 4), maxBlocks: 4, maxReads: pick(2, 2)})
-	// grp: a compressed node with 3-4 children (g*), split in the middle by m, read of the smallest key
-	addScenario(&scenario{name: "grp", reads: []string{"g0", "g2"}, menu: []string{"g1+g2+g3", "g3", "m", "-"},
-		depth: pick(4, 5), maxBlocks: 4, maxReads: pick(2, 2)})
+		depth: pick(3, 4), maxBlocks: 4, maxReads: 2})
+	// grp: a compressed node with 3-4 children (g*), split in the middle by m, read of the smaller keys
+	grpReads := []string{"g0"}
+	if th {
+		grpReads = []string{"g0", "g2"}
+	}
+	addScenario(&scenario{name: "grp", reads: grpReads, menu: []string{"g1+g2+g3", "g3", "m", "-"},
+		depth: pick(4, 5), maxBlocks: 4, maxReads: 2})
 	// warm: all accounts are in the stable trie; deep trees, pruning
-	addScenario(&scenario{name: "warm", warm: []string{"g0", "g1", "m", "z"}, menu: []string{"-", "g0", "g1", "m+z", "g0+g1+m+z"},
+	addScenario(&scenario{name: "warm", warm: []string{"g0", "g1", "m", "z"}, menu: []string{"-", "g0", "g1", "m+z"},
 		depth: pick(4, 5), maxBlocks: 6, maxReads: 0})
 	// tree: tiny write alphabet, deepest trees (every branching incl. equal-height siblings and cousins)
 	addScenario(&scenario{name: "tree", reads: []string{"g0"}, menu: []string{"-", "g0"},
 		depth: pick(5, 6), maxBlocks: 6, maxReads: 1})
 	if th {
-		// reverse Put order and larger sets
+		// reverse Put order, other sets
 		addScenario(&scenario{name: "grp2", reads: []string{"g0"}, menu: []string{"g3+g2+g1", "g2+g3", "m+g1", "s"},
 			depth: 4, maxBlocks: 4, maxReads: 2})
-		addScenario(&scenario{name: "warm2", warm: []string{"g1", "g2", "g3", "s"}, menu: []string{"g0", "m", "g1+g3", "s+z", "g2"},
-			depth: 5, maxBlocks: 6, maxReads: 0})
+		addScenario(&scenario{name: "warm2", warm: []string{"g1", "g2", "g3", "s"}, menu: []string{"g0", "m", "g1+g3", "s+z", "g0+g1+g2+g3+m+s+z"},
+			depth: 4, maxBlocks: 6, maxReads: 0})
 	}
 }
 
@@ -799,10 +803,14 @@ func (c *runCtx) step(ev string, last bool) (ok bool) {
 			c.viol("error/SetStableBlock/"+err.Error(), fmt.Sprintf("SetStableBlock(block %d) failed: %v", b, err))
 			return false
 		}
-		path := 0
+		path, persisted := 0, 0
 		for x := b; x != m.stable; x = m.blocks[x].parent {
 			m.blocks[x].state = stStable
+			persisted += len(m.blocks[x].writes)
 			path++
+		}
+		if persisted > 0 {
+			count("ev_st_persisting_writes", 1)
 		}
 		m.stable = b
 		wantDropped := map[common.Hash]int{}
